@@ -39,7 +39,8 @@ META = dict(
          "consumes something; a repetition body that matches ends strictly after the location the loop is at - stated at "
          "the model's two non-advance tests, for the model's own recursive calls), every element id of the table, every "
          "location and flags and every fuel > r id, the model's _parse does not answer `hang` (acyclic_terminates; "
-         "acyclic_terminates_uniform for one fuel bound serving the whole table); likewise parse_string incl. parse_all "
+         "acyclic_terminates_uniform for one fuel bound serving the whole table; acyclic_terminates_depth with the rank computed: "
+         "fuel >= height of the element, executable test depthOk); likewise parse_string incl. parse_all "
          "(parseString_terminates) and scan_string, whose own loop budget 2*len+4 never runs out (scanString_terminates). "
          "advancing_of_nonempty gives the simpler sufficient condition (such bodies / ignorables "
          "never match empty), and advOk g k is an EXECUTABLE sufficient test for it (every ignorable / repetition body is a "
@@ -75,7 +76,7 @@ THEOREMS = [
     "PP.Parse.acyclic_terminates", "PP.Parse.acyclic_terminates_uniform", "PP.Parse.parseString_terminates", "PP.Parse.scanString_terminates",
     "PP.Parse.advancing_of_nonempty", "PP.Parse.exG_advancing", "PP.Parse.rankOk_spec",
     "PP.Parse.consumes_sound", "PP.Parse.advancing_of_advOk", "PP.Parse.acyclic_terminates_checked",
-    "PP.Parse.entry_points_terminate_checked",
+    "PP.Parse.entry_points_terminate_checked", "PP.Parse.acyclic_terminates_depth",
 ]
 
 BOUNDARY = ["", " ", "\t", "\n", " \n ", "\r\n", "a", "ab", "ab ", " ab", "a\tb", "é", "aé b", "ab\n", "ab\n\n", "b", "a,", ",", "a\n b"]
